@@ -177,6 +177,10 @@ func (c *Ctx) ringSpaceAccounting() {
 	c.R.Floor("consumer-cursor stores (space accounting)", cnt["cset"], 2)
 	c.R.Count("waits of the ring (wait only when it must)", cnt["mustwait"])
 	c.R.Floor("waits of the ring (wait only when it must)", cnt["mustwait"], 2)
+	if c.R.Property != "C14" && c.R.Property != "C17" {
+		c.R.Count("producer waits (wait only for what fits the ring)", cnt["fits"])
+		c.R.Floor("producer waits (wait only for what fits the ring)", cnt["fits"], 1)
+	}
 	c.R.Count("consumer calls reporting a byte count (advance == count)", cnt["advance"])
 	c.R.Floor("consumer calls reporting a byte count (advance == count)", cnt["advance"], 2)
 	c.R.Count("producer-cursor stores (space accounting)", cnt["pset"])
@@ -570,6 +574,20 @@ func (sp *spaceRules) probe(p *bounds.Probe) {
 			c2, ok := in.(*ssa.Call)
 			return ok && ir.IsMethod(c2.Common(), "sync", "Cond", "Wait")
 		})
+		if cond == "pcond" && c.R.Property != "C14" && c.R.Property != "C17" {
+			// (8) [a liveness clause: not part of C14's and C17's safety statements] the producer sleeps only for room that can exist: the count it waits for is at most the size of the ring
+			// (the consumer-side calls refuse a larger count before they do anything). A larger count parks the caller
+			// for ever - no consumer progress can make the room.
+			fits := false
+			if size8 := sizeInFrames(p); size8 != nil {
+				for _, n := range counts {
+					if p.Proves(bounds.LE(n, *size8)) {
+						fits = true
+					}
+				}
+			}
+			sp.record(fmt.Sprintf("%s:wait(%s)#%d:waits-only-for-what-fits", fn.Name(), cond, k), "fits", c.P.InstrPos(p.Instr), "at the Wait the count asked for is at most the size of the ring", fn.Name()+" can go to sleep waiting for more room than the ring has: a message larger than the ring (a long will on a broker with a small BufferSize, an in-process Publish of a large message) parks the delivering goroutine for ever, with the connection's write mutex held", fits, "in context "+p.Ctx+": count <= size is not provable from the facts at the Wait")
+		}
 		sp.record(fmt.Sprintf("%s:wait(%s)#%d:waits-only-when-it-must", fn.Name(), cond, k), "mustwait", c.P.InstrPos(p.Instr), "at the Wait the other side's cursor, as read under the lock, leaves too little room / data", fn.Name()+" can go to sleep although the other side's cursor already leaves exactly enough room (or data): nobody wakes it again when the other side has nothing more to do - the connection hangs at that boundary", good, "in context "+p.Ctx+": 'not enough' is not provable from the facts at the Wait")
 		return
 	}
@@ -869,6 +887,30 @@ func copyOnlyDst(x *ssa.Slice) *ssa.Call {
 		only = call
 	}
 	return only
+}
+
+// sizeInFrames: the ring's size as the nearest frame of the probe has loaded it from the receiver.
+func sizeInFrames(p *bounds.Probe) *bounds.Lin {
+	for i := 0; i < p.Frames(); i++ {
+		f := p.Fn(i)
+		if len(f.Params) == 0 {
+			continue
+		}
+		for _, b := range f.Blocks {
+			for _, in := range b.Instrs {
+				if u, ok := in.(*ssa.UnOp); ok && u.Op == token.MUL {
+					pp := ir.PathOf(u.X)
+					if len(pp.Fields) == 1 && pp.Fields[0] == "size" && pp.Root == ssa.Value(f.Params[0]) {
+						if av, ok := p.Val(i, u); ok && av.Kind == bounds.KInt {
+							l := av.Int
+							return &l
+						}
+					}
+				}
+			}
+		}
+	}
+	return nil
 }
 
 // ringSizeLin: the ring's size as engine B names it in the entry frame of the probe (the value of a load of the
